@@ -57,7 +57,8 @@ CLAIMS = {
             'differentiable along pose_k [+] t e_i for every free vertex k and tangent coordinate i, and its derivative at 0 is exactly twice the entry of the '
             'gradient vector of the normal equations built from the records of the regenerated programs (C05_gradient_SE3: the vector graph.py assembles, by C03, '
             'is half the gradient of chi2 on the manifold; premises met by a concrete 3-vertex graph); the same for whole SE(2) graphs under the SE(2) side '
-            'conditions of C01 (stored angles in [-pi, pi), no odometry edge on the jump set of its own error: C05_gradient_SE2, proofs/C05_grad2.v); a state is first-order '
+            'conditions of C01 (stored angles in [-pi, pi), no odometry edge on the jump set of its own error: C05_gradient_SE2, proofs/C05_grad2.v); end to end (proofs/C05_assembled.v, with assembly_correct of C03) the vector the ASSEMBLY ALGORITHM of the graph model '
+            'produces from those records is half that gradient and its chi2 is the graph chi2; a state is first-order '
             'stationary iff the assembled gradient vanishes, the Gauss-Newton increment is a descent direction (b.dx = -dx^T H dx), a consistent '
             'configuration has chi2 = 0 and zero gradient, the stopping rule never reports convergence on an increase; and it REFUTES that the stopping '
             'rule alone implies final chi2 <= initial chi2. NOT proved (and not provable with what is installed): the quantitative local-convergence claim '
